@@ -565,3 +565,32 @@ Theorem apply_chain_pose_n_correct l p r :
   veq (fst (apply_chain_pose_n l (p, r))) (fst (apply_chain_pose l (p, r))) /\
   qeq (snd (apply_chain_pose_n l (p, r))) (snd (apply_chain_pose l (p, r))).
 Proof. apply apply_chain_pose_n_equiv; [apply veq_refl|apply qeq_refl]. Qed.
+
+(* ------------------------------------------------------------------------------------------ *)
+(* further facts                                                                                *)
+(* ------------------------------------------------------------------------------------------ *)
+Definition transpose3 (M : mat3) : mat3 :=
+  mkMat3 (mkVec (vx (k1 M)) (vx (k2 M)) (vx (k3 M)))
+         (mkVec (vy (k1 M)) (vy (k2 M)) (vy (k3 M)))
+         (mkVec (vz (k1 M)) (vz (k2 M)) (vz (k3 M))).
+
+(* the rotation block of inv() is the transpose of the rotation block *)
+Lemma rotm_conj_transpose q : m3eq (rotm (qconj q)) (transpose3 (rotm q)).
+Proof. unfold transpose3. poly. Qed.
+
+(* R R^T = |q|^4 I: the rows of the rotation block of a unit quaternion are orthonormal *)
+Lemma rotm_orthogonal q :
+  vdot (k1 (rotm q)) (k1 (rotm q)) == qnorm2 q * qnorm2 q /\ vdot (k2 (rotm q)) (k2 (rotm q)) == qnorm2 q * qnorm2 q /\
+  vdot (k3 (rotm q)) (k3 (rotm q)) == qnorm2 q * qnorm2 q /\
+  vdot (k1 (rotm q)) (k2 (rotm q)) == 0 /\ vdot (k1 (rotm q)) (k3 (rotm q)) == 0 /\ vdot (k2 (rotm q)) (k3 (rotm q)) == 0.
+Proof. unfold qnorm2. unf. repeat split; ring. Qed.
+
+(* TransformDict.transform(key, matrix): the registered transform followed by the argument *)
+Lemma reg_transform_matrix_use reg a b m M :
+  reg_lookup reg a b = LUse m -> rsrc M = rdst m ->
+  exists C, reg_transform_matrix reg a b M = TOk C /\ dot M m = DotOk C /\ rsrc C = rsrc m /\ rdst C = rdst M.
+Proof.
+  intros L H. unfold reg_transform_matrix, transform_matrix. rewrite L.
+  destruct (proj2 (dot_ok_iff M m) H) as [C HC]. rewrite HC. exists C.
+  destruct (compose_frames _ _ _ HC). repeat split; assumption.
+Qed.
